@@ -421,7 +421,7 @@ Table ==
   "WWWAuthenticate.from_header" :>
      << V("call", TRUE, {"WWWAuthenticate", None}) >> \o AuthUses \o
      << C("parameters", TRUE, {"CallbackDict", "dict"}, OptMap), V("realm", TRUE, OptStr), V("algorithm", TRUE, OptStr),
-        V("qop", TRUE, OptStr), V("stale", TRUE, {"bool", None}), V("nonce", TRUE, OptStr), V("opaque", TRUE, OptStr),
+        V("qop", TRUE, OptStr), V("stale", TRUE, OptStr), V("nonce", TRUE, OptStr), V("opaque", TRUE, OptStr),
         V("domain", TRUE, OptStr), V("contains", TRUE, {"bool"}), V("get", TRUE, OptStr),
         V("to_header", FALSE, {"str"}), V("str", FALSE, {"str"}) >> @@
   "unquote_etag" :> << V("call", TRUE, {"tuple[str,bool]", "tuple[NoneType,NoneType]"}) >> @@
@@ -430,7 +430,7 @@ Table ==
 
 Fns == DOMAIN Table
 
-\* kd: 0 value, 1 other exception, 2 wall budget exhausted, 3 not executed, otherwise the code of a werkzeug HTTPException
+\* kd: 0 value, 1 other exception, 2 CPU-time budget exhausted, 3 not executed, otherwise the code of a werkzeug HTTPException
 \* ty: signature of the value, or <<exception class name>>.  first = <<kd, ty>> of position 1.
 Clause(fn, w, kd, ty, kd1, ty1) ==
   LET p == Table[fn][w] IN
